@@ -1,2 +1,2 @@
-CONSTANTS MaxLines = 4 MaxDepth = 3 Mode = "robust" UnitKinds = {"module", "submodule", "program", "sub", "fun"} ConstructKinds = {"block", "do", "if", "select", "associate", "where"}
+CONSTANTS MaxLines = 4 MaxDepth = 3 Mode = "robust" UnitKinds = {"module", "submodule", "program", "sub", "fun"} ConstructKinds = {"block", "do", "ldo", "if", "select", "associate", "where"}
 SPECIFICATION SpecRobust
